@@ -3,7 +3,7 @@
    the tables generated from the running CPython (Gen_unicode.v); `all_sites` are the bundled siteinfo files
    (Gen_sites.v), both regenerated on every run. *)
 From Coq Require Import List NArith ZArith Bool.
-From MW Require Import Common.Str C12.Model C12.ListLemmas C12.Proofs C12.Inst C12.ProofsInst.
+From MW Require Import Common.Str C12.Model C12.ListLemmas C12.Proofs C12.Inst C12.ProofsInst C12.ProofsFq.
 Import ListNotations.
 Open Scope N_scope.
 
@@ -33,6 +33,26 @@ Theorem C12_idempotent : forall nm st t dns k P F,
   (star_of st k <> Some [] -> forall dns', py_splitname st F dns' = Ok (k, P, F)).
 Proof. exact py_idempotent. Qed.
 Print Assumptions C12_idempotent.
+
+(* THE KEY get_fqname (what NuWiki, the fetcher and the expander store and look pages up under) of ANY title is a fixed
+   point of get_fqname: in its own namespace as default namespace, and under EVERY default namespace when that namespace
+   has a non-empty local name.  (get_fqname is the third component of splitname.) *)
+Theorem C12_fqname_fixed_point : forall nm st t dns F,
+  In (nm, st) all_sites -> py_get_fqname st t dns = Ok F ->
+  exists k P, py_splitname st t dns = Ok (k, P, F)
+    /\ py_get_fqname st F k = Ok F
+    /\ (star_of st k <> Some [] -> forall dns', py_get_fqname st F dns' = Ok F).
+Proof. exact py_fqname_fixed_point. Qed.
+Print Assumptions C12_fqname_fixed_point.
+
+(* ... and the key determines (namespace, remainder): two titles (whatever their spelling and default namespace) that get
+   the same key, one of them outside the main namespace, have the same namespace id and the same remainder. *)
+Theorem C12_fqname_determines_triple : forall nm st t1 d1 t2 d2 k1 P1 F1 k2 P2 F2,
+  In (nm, st) all_sites ->
+  py_splitname st t1 d1 = Ok (k1, P1, F1) -> py_splitname st t2 d2 = Ok (k2, P2, F2) ->
+  F1 = F2 -> star_of st k1 <> Some [] -> (k1, P1) = (k2, P2).
+Proof. exact py_fqname_determines_triple. Qed.
+Print Assumptions C12_fqname_determines_triple.
 
 (* SPELLING INVARIANCE, titles with a namespace prefix.  n is any name the site gives to namespace k (local "*",
    canonical, or alias; names_of), s any per-letter case variant of n (cv: each letter x as x, x.upper() or x.lower()
